@@ -38,6 +38,7 @@ func TestSim(t *testing.T) {
 	}
 	// the plotter logs progress per record at tiny bit lengths: keep only errors
 	logging.Init(filepath.Join(dir, fmt.Sprintf("log-%d", os.Getpid())), "plot", "error", 0, true)
+	vsim.E = zzEng
 	sim.Main(map[string]sim.RunFunc{"C07": zzRunC07, "C10": zzRunC10})
 }
 
@@ -316,6 +317,24 @@ type zzYieldEngine struct {
 	sites map[string]int
 }
 
+// zzEng is the one engine of this process: it is installed once, before any plot goroutine exists
+// (stragglers of earlier sessions read the engine variable at any time), and armed per session.
+var zzEng = &zzYieldEngine{}
+
+func (e *zzYieldEngine) arm(at int, fire func()) {
+	e.mu.Lock()
+	e.n, e.at, e.fire, e.sites = 0, at, fire, map[string]int{}
+	e.mu.Unlock()
+}
+
+func (e *zzYieldEngine) disarm() (n int, sites map[string]int) {
+	e.mu.Lock()
+	defer e.mu.Unlock()
+	n, sites = e.n, e.sites
+	e.at, e.fire, e.sites = 0, nil, nil
+	return
+}
+
 func (e *zzYieldEngine) Yield(site string) {
 	e.mu.Lock()
 	e.n++
@@ -340,16 +359,14 @@ func (p *zzPlot) session(at int, kind int) zzOutcome {
 	var out zzOutcome
 	p.stopRes = nil
 	if at < 0 && kind == zzStop {
-		eng := &zzYieldEngine{at: -at, sites: map[string]int{}}
 		defer func() {
-			eng.mu.Lock()
-			defer eng.mu.Unlock()
-			for s, n := range eng.sites {
-				sim.Cur.Count("sync-point:"+s[strings.LastIndex(s, "/")+1:], n)
+			n, sites := zzEng.disarm()
+			for s, k := range sites {
+				sim.Cur.Count("sync-point:"+s[strings.LastIndex(s, "/")+1:], k)
 			}
-			sim.Cur.Count("sync-points-per-stopped-session", eng.n)
+			sim.Cur.Count("sync-points-per-stopped-session", n)
 		}()
-		eng.fire = func() {
+		fire := func() {
 			mdb := p.mdb
 			if atomic.LoadInt32(&mdb.plotting) != 1 {
 				return // not plotting (yet, or any more): a stop request would be a no-op
@@ -365,9 +382,7 @@ func (p *zzPlot) session(at int, kind int) zzOutcome {
 				}
 			}
 		}
-		prev := vsim.E
-		vsim.E = eng
-		defer func() { vsim.E = prev }()
+		zzEng.arm(-at, fire)
 	}
 	p.disk.Hook = func(op *vos.Op) vos.Action {
 		if kind == zzNoInterrupt || out.Reached || op.N != base+at {
@@ -431,7 +446,7 @@ func zzRunC07(r *sim.Run) {
 	t := r.T
 	disk := vos.New()
 	vos.Cur = disk
-	vsim.E = vsim.Plain{}
+	// (the engine variable is set once in TestSim)
 	vsim.TakePanics()
 	r.StepBudget = 3000000
 	disk.StepFn = r.Step
@@ -525,7 +540,7 @@ func zzHash(s string) uint64 {
 
 func zzRunC10(r *sim.Run) {
 	t := r.T
-	vsim.E = vsim.Plain{}
+	// (the engine variable is set once in TestSim)
 	vsim.TakePanics()
 	bl := []int{7, 8, 9, 10}[t.Weighted("bl", []int{5, 5, 1, 2})]
 	keyIdx := t.Choose("key", 64)
